@@ -176,6 +176,7 @@ def stepLine (σ : DSt) (line : String) : DSt × String :=
   match (line.trimAscii.toString.splitOn " ").filter (· ≠ "") with
   | "x" :: ws => let (x, ans) := Ix.stepX σ.2.1 ws; ((σ.1, x, σ.2.2), ans)
   | "g" :: ws => let (g, ans) := Al.stepG σ.2.2.1 ws; ((σ.1, σ.2.1, g, σ.2.2.2), ans)
+  | "m" :: ws => (σ, Tier.stepM ws)
   | "s" :: ws => let (x, ans) := Sh.stepS σ.2.2.2 ws; ((σ.1, σ.2.1, σ.2.2.1, x), ans)
   | _ => let (s, ans) := stepLine1 σ.1 line; ((s, σ.2), ans)
 
